@@ -220,6 +220,22 @@ def run_property(pid, tier="quick", sources=None, rules_only=None, write=True, q
         out("KNOWN-FINDING: property=%s %s %s at %s: %s" % (pid, o.rule, o.construct, o.loc, o.reason))
     code = 0
     replay_paths = []
+    anchor_lost = [o for o in errs if "anchor vanished: function" in o.reason and o.reason.rstrip().endswith("not found")]
+    if new_viol and anchor_lost:
+        # a function the rules are anchored in is gone (inlined away, turned into another kind of definition):
+        # what other rules report about the *same file* on such a tree is not reliable enough to be called a
+        # violation; reports about other files stand
+        lost_files = set()
+        for o in anchor_lost:
+            mod = o.reason.split("function ", 1)[1].split(":", 1)[0]
+            lost_files.add(mod.replace(".", "/") + ".py")
+        demoted = [o for o in new_viol if str(o.loc).split(":")[0] in lost_files]
+        for o in demoted:
+            out("ANALYSIS-INCONCLUSIVE property=%s rule=%s %s at %s: suspected, but the analysis of this file is incomplete (%s): %s"
+                % (pid, o.rule, o.construct, o.loc, anchor_lost[0].reason[:80], o.reason))
+        new_viol = [o for o in new_viol if o not in demoted]
+        if demoted and not new_viol:
+            code = 2
     if new_viol:
         code = 1
         rdir = os.path.join(VERIF, "evidence", "replay", pid)
@@ -234,6 +250,8 @@ def run_property(pid, tier="quick", sources=None, rules_only=None, write=True, q
             out("VIOLATION property=%s replay=%s" % (pid, rp))
             out("  rule=%s construct=%s at %s: %s" % (o.rule, o.construct, o.loc, o.reason))
     elif errs or incs:
+        code = 2
+    if code == 0 and anchor_lost:
         code = 2
     for o in errs:
         out("ANALYSIS-ERROR property=%s rule=%s %s: %s" % (pid, o.rule, o.construct, o.reason))
